@@ -98,10 +98,10 @@ PROPS = {
     ),
     'C09': dict(
         level='proof',
-        level_text='Verus proves rotated_left/right and pushl/pushr generically in codec, K and storage: results are canonical (value < 2^(K*BITS)) and their symbol lists are the rotated / shifted lists; Kani proves complement, reverse and reverse-complement of 2-bit k-mers at word level for all 2^64 values per K (complete)',
-        level_note=B_NOTE + '; ' + KANI_NOTE + '; a bounded stand-in C09 (every codec width and K, structured content with all-zero symbols at either end, every rotation class, pushes, DNA comp / revcomp / canonical form) cross-checks the word-level laws on the real crate and supplies concrete inputs when a rewritten loop makes the Kani harnesses time out',
-        technique='deductive verification (Verus) for rotate/push; Kani over the full usize domain for word-level comp/rev',
-        verus=[dict(name='c09', mode='T', roots=['kmer.rotate', 'kmer.push'])],
+        level_text='Verus proves rotated_left/right and pushl/pushr generically in codec, K and storage: results are canonical (value < 2^(K*BITS)) and their symbol lists are the rotated / shifted lists; Verus also proves the symbol-by-symbol loop of ReverseMut for Kmer<A, K, usize> (every codec width but 2) for ALL widths 1..8, all K that fit and all words: the result is canonical and its symbol list is the reversed list (loop invariant over the storage word, vstd shift/mask lemmas + by(bit_vector)); Kani proves complement, reverse and reverse-complement of 2-bit k-mers at word level for all 2^64 values per K (complete)',
+        level_note=B_NOTE + '; ' + KANI_NOTE + '; a bounded stand-in C09 (every codec width and K, structured content with all-zero symbols at either end, every rotation class, pushes, DNA comp / revcomp / canonical form) cross-checks the word-level laws on the real crate and supplies concrete inputs when a rewritten loop makes the Kani harnesses time out; in the Verus unit kmer.rev the 2-bit fast path Kmer::rev_blocks_2 (word-level bit tricks) is an ASSUMED contract, checked by the Kani harnesses kmer_dna_ops_k* / kmer_rev_dna_k9 (complete per K, bounded over K); the kmer_rev_<codec>_k<K> harnesses remain as the counterexample source for the loop',
+        technique='deductive verification (Verus) for rotate/push and the generic reverse loop; Kani over the full usize domain for word-level comp/rev of 2-bit k-mers',
+        verus=[dict(name='c09', mode='T', roots=['kmer.rotate', 'kmer.push', 'kmer.rev'])],
         kani=dict(quick=['kmer_dna_ops_k%d' % k for k in (1, 2, 5, 16, 31, 32)] + ['kmer_rev_iupac_k2', 'kmer_rev_iupac_k16', 'kmer_rev_amino_k3', 'kmer_rev_amino_k10', 'kmer_rev_text_k1', 'kmer_rev_text_k8', 'kmer_rev_masked_iupac_k12', 'kmer_rev_degenerate_k7', 'kmer_rev_dna_k9'],
                   thorough=['kmer_dna_ops_k%d' % k for k in range(1, 33)] + ['kmer_rev_iupac_k5'],
                   profiles=['debug', 'release'], quick_profiles=['debug']),
